@@ -642,6 +642,119 @@ def plan_c07(prop, tier, seed, t0):
 RELEVANT["C07"] = {"s.del0", "t.accept"}
 
 
+def c06_scenarios(n_seeds, seed):
+    out = []
+    Q = {"do": "quiet"}
+    for k in range(n_seeds):
+        sd = seed * 1000 + k
+        cap = (16, 1, 2)[k % 3]
+        y = {"do": "yield", "n": k % 7}
+        pre = [call(1, op="CreateTopic", name=T1), call(1, op="CreateSub", name=S1, topic=T1, ack=10)]
+        # W1: the availability event races with the consumer's check-then-wait step
+        out.append(scn("c06-W1-%d" % k, pre + [
+            start("p", 3, op="Pull", sub=S1, max=1, ri=False), y,
+            call(2, op="Publish", topic=T1, msgs=[{"p": "w1-%d" % k}]), Q,
+            {"do": "wait", "h": "p"}, Q, {"do": "drain", "c": 9}], seed=sd, cap=cap))
+        # W2: several waiting consumers, several messages
+        out.append(scn("c06-W2-%d" % k, pre + [
+            start("p1", 3, op="Pull", sub=S1, max=1, ri=False), start("p2", 4, op="Pull", sub=S1, max=1, ri=False),
+            {"do": "sopen", "h": "s", "c": 5, "sub": S1, "max": 1}, y,
+            call(2, op="Publish", topic=T1, msgs=[{"p": "w2-%d-%d" % (k, j)} for j in range(3)]), Q,
+            {"do": "wait", "h": "p1"}, {"do": "wait", "h": "p2"}, Q, {"do": "sabandon", "h": "s"},
+            {"do": "drain", "c": 9}], seed=sd, cap=cap))
+        # W3: a nack makes the message available again
+        out.append(scn("c06-W3-%d" % k, pre + [
+            call(2, op="Publish", topic=T1, msgs=[{"p": "w3-%d" % k}]),
+            call(2, op="Pull", sub=S1, max=1, ri=True),
+            start("p", 3, op="Pull", sub=S1, max=1, ri=False), y,
+            call(2, op="ModAck", sub=S1, acks=[{"d": 1}], secs=0), Q,
+            {"do": "wait", "h": "p"}, Q, {"do": "drain", "c": 9}], seed=sd, cap=cap))
+        # W4: deadline expiry makes it available again
+        out.append(scn("c06-W4-%d" % k, pre + [
+            call(2, op="Publish", topic=T1, msgs=[{"p": "w4-%d" % k}]),
+            call(2, op="Pull", sub=S1, max=1, ri=True),
+            {"do": "sopen", "h": "s", "c": 5, "sub": S1, "max": 10}, {"do": "settle"},
+            {"do": "advance", "ms": 10200}, Q, {"do": "advance", "ms": 200}, Q,
+            {"do": "sabandon", "h": "s"}, {"do": "drain", "c": 9}], seed=sd, cap=cap))
+        # W5: a waiting consumer goes away; the next one must still be woken
+        out.append(scn("c06-W5-%d" % k, pre + [
+            start("p1", 3, op="Pull", sub=S1, max=1, ri=False), start("p2", 4, op="Pull", sub=S1, max=1, ri=False),
+            {"do": "settle"}, {"do": "abort", "h": "p1"}, y,
+            call(2, op="Publish", topic=T1, msgs=[{"p": "w5-%d" % k}]), Q,
+            {"do": "wait", "h": "p2"}, Q, {"do": "drain", "c": 9}], seed=sd, cap=cap))
+        # W6: a consumer is dropped while it is being woken and its pull waits for room in a
+        # full mailbox (the wake-up must be handed on)
+        if cap <= 2:
+            fill = [{"do": "hold", "h": "f%d" % j, "c": 20 + j, "call": dict(op="GetSub", name=S1)} for j in range(cap)]
+            out.append(scn("c06-W6-%d" % k, pre + [
+                start("p1", 3, op="Pull", sub=S1, max=1, ri=False), {"do": "settle"},
+                start("p2", 4, op="Pull", sub=S1, max=1, ri=False), {"do": "settle"},
+                call(2, op="Publish", topic=T1, msgs=[{"p": "w6-%d" % k}])] + fill + [
+                {"do": "yield", "n": 1 + k % 5}, {"do": "abort", "h": "p1"}, {"do": "release"},
+                Q, {"do": "advance", "ms": 50}, Q,
+                {"do": "abort", "h": "p2"}, {"do": "drain", "c": 9}], seed=sd, cap=cap))
+            # W7: the same, forced with the schedule gate: the subscription actor takes exactly one
+            # turn (the post) while the mailbox is kept full, the woken consumer's pull parks for a
+            # permit, and that consumer is dropped there (15-step TLC counterexample of DeltioActors
+            # with PullHandsOnWakeup = FALSE)
+            fill = [{"do": "hold", "h": "f%d" % j, "c": 20 + j, "call": dict(op="GetSub", name=S1)} for j in range(cap + 1)]
+            out.append(scn("c06-W7-%d" % k, pre + [
+                start("p1", 3, op="Pull", sub=S1, max=1, ri=False), {"do": "settle"},
+                start("p2", 4, op="Pull", sub=S1, max=1, ri=False), {"do": "settle"},
+                {"do": "gate", "name": "s.turn", "turns": 0},
+                call(2, op="Publish", topic=T1, msgs=[{"p": "w7-%d" % k}])] + fill + [
+                {"do": "gate", "name": "s.turn", "turns": 1},
+                {"do": "yield", "n": 2 + k % 6}, {"do": "abort", "h": "p1"}, {"do": "yield", "n": 1 + k % 7},
+                {"do": "gate", "name": "s.turn", "turns": -1}, {"do": "release"},
+                Q, {"do": "advance", "ms": 50}, Q,
+                {"do": "abort", "h": "p2"}, {"do": "drain", "c": 9}], seed=sd, cap=cap))
+    return out
+
+
+def c06_mc(work, quick, violations):
+    total = {"generated": 0, "distinct": 0}
+    runs = []
+    configs = [
+        ("a", {"b1": ("bpull", "s1"), "b2": ("bpull", "s1"), "pub": ("publish", "s1"), "pub2": ("publish", "s1"), "n": ("nack", "s1")}, 2, []),
+        ("b", {"b1": ("bpull", "s1"), "st": ("stream", "s1"), "pub": ("publish", "s1"), "n": ("nack", "s1"), "a": ("ack", "s1")}, 1, []),
+        ("c", {"b1": ("bpull", "s1"), "b2": ("bpull", "s1"), "pub": ("publish", "s1"), "n": ("nack", "s1")}, 1, ["b1"]),
+        ("e", {"b1": ("bpull", "s1"), "b2": ("bpull", "s1"), "pub": ("publish", "s1"), "a": ("ack", "s1")}, 1, ["b1", "b2"]),
+    ]
+    if not quick:
+        configs.append(("d", {"b1": ("bpull", "s1"), "b2": ("bpull", "s1"), "st": ("stream", "s1"), "pub": ("publish", "s1"),
+                              "pub2": ("publish", "s1"), "n": ("nack", "s1")}, 2, ["b2"]))
+    for name, procs, cap, cancel in configs:
+        r = V.actors_mc(os.path.join(work, "mc"), "c06_" + name, procs, cap=cap, backlog=0, max_expire=1, allow_cancel=cancel,
+                        invariants=["TypeOK", "C06_NoLostWake", "C07_NoHang"])
+        if r["stats"]:
+            total["generated"] += r["stats"]["generated"]
+            total["distinct"] += r["stats"]["distinct"]
+        runs.append({"config": name, "stats": r["stats"], "error": r["error"]})
+        if r["error"]:
+            path = V.save_replay("C06", 0, {"kind": "model", "error": r["error"], "config": r["config"], "trace": r["trace"],
+                                            "tlc_output_tail": r["out"][-5000:]})
+            violations.append(("model DeltioActors: " + r["error"], path))
+    # vacuity control: design mutations must be rejected
+    for sw in ("NoRenotifyAfterPartialPull", "PostDoesNotNotify"):
+        m = V.actors_mc(os.path.join(work, "mc"), "c06_mut", configs[0][1], cap=2, switches={sw: True}, invariants=["C06_NoLostWake"])
+        if not m["error"]:
+            raise V.ToolError("vacuity: the model with %s=TRUE satisfies C06_NoLostWake" % sw)
+    m = V.actors_mc(os.path.join(work, "mc"), "c06_pinned", configs[3][1], cap=1, switches={"PullHandsOnWakeup": False},
+                    allow_cancel=["b1", "b2"], max_expire=0, invariants=["C06_NoLostWake"])
+    if not m["error"]:
+        raise V.ToolError("vacuity: the model without the wake-up hand-on satisfies C06_NoLostWake under cancellation")
+    return {"stats": total, "runs": runs}
+
+
+def plan_c06(prop, tier, seed, t0):
+    n = 30 if tier == "quick" else 600
+    return scenario_check(prop, tier, seed, t0, c06_scenarios(n, seed), mc=c06_mc,
+                          explore=[("consumers", 64, 3000), ("data", 32, 1000)])
+
+
+RELEVANT["C06"] = {"quiet"}
+
+
 def plan_c12(prop, tier, seed, t0):
     n = 64 if tier == "quick" else 2000
     return scenario_check(prop, tier, seed, t0, c12_scenarios(n, seed), explore=[("churn", 48, 2000)])
@@ -652,5 +765,5 @@ RELEVANT["C12"] = {"send", "s.del1"}
 PLANS = {
     "C01": plan_c01, "C02": plan_c02, "C03": plan_c03, "C04": plan_c04, "C05": plan_c05,
     "C08": plan_c08, "C09": plan_c09, "C10": plan_c10, "C11": plan_c11, "C13": plan_c13, "C15": plan_c15,
-    "C12": plan_c12, "C07": plan_c07,
+    "C12": plan_c12, "C07": plan_c07, "C06": plan_c06,
 }
